@@ -150,17 +150,22 @@ Section Run.
     (mem cn pub = false /\ exists fields0 mixins pfl extra,
         resolve fuel' S frs sels tn = Ok (fields0, mixins) /\
         fields_run (add_typename_field at_ fields0) (pub ++ [cn]) pfl extra pub' sk /\
-        out = {| c_name := cn; c_bases := class_bases mixins eb; c_fields := pfl |} :: extra).
+        exists kept, remove_inherited fuel' S frs mixins = Ok kept /\
+        out = {| c_name := cn; c_bases := class_bases mixins kept eb; c_fields := pfl |} :: extra).
   Proof.
     unfold parse_body. destruct (mem cn pub) eqn:M.
     - intro H; inversion H; subst. left. auto.
     - intro H. right. split; [reflexivity|].
       apply bind_ok in H. destruct H as [[fields0 mixins] [Hres H]].
+      apply bind_ok in H. destruct H as [kept [Hk H]].
       apply bind_ok in H. destruct H as [[[[pfs extra] pub1] sk1] [Hf H]].
       inversion H; subst; clear H.
       apply fields_fold in Hf. destruct Hf as [pfl [exl [skl [Hr [Hp [He Hs]]]]]]. simpl in *. subst.
-      exists fields0, mixins, pfl, exl. auto.
+      exists fields0, mixins, pfl, exl. split; [exact Hres|]. split; [exact Hr|]. exists kept. auto.
   Qed.
+
+  Lemma remove_inherited_nil : remove_inherited fuel' S frs [] = Ok [].
+  Proof. reflexivity. Qed.
 
   (* generic extraction of a per-field property from a run without skipped classes *)
   Lemma fields_run_Forall (P : fnode -> pfield -> Prop) : forall fs pub pfl extra pub',
@@ -222,7 +227,7 @@ Section NamesInv.
   Lemma body_names : names_inv (parse_body rec C S frs fuel').
   Proof.
     intros pub cn tn sels at_ eb tv out pub' H.
-    apply body_inv in H. destruct H as [[_ [_ [_ H]]] | [M [fields0 [mixins [pfl [extra [_ [Hr Ho]]]]]]]];
+    apply body_inv in H. destruct H as [[_ [_ [_ H]]] | [M [fields0 [mixins [pfl [extra [_ [Hr [kept [_ Ho]]]]]]]]]];
       [discriminate|].
     apply fields_run_names in Hr; [| reflexivity]. destruct Hr as [R1 R2]. subst.
     simpl. split; [rewrite <- app_assoc; reflexivity|].
@@ -359,8 +364,10 @@ Definition flattenM_step (rec : string -> list sel -> option (list fnode * list 
   | Some (l, ms) =>
       match s with
       | SField al n c mx sub => Some (l ++ [fnode_of al n c mx sub], ms)
-      | SInline (Some tc) false sub =>
-          match inline_root_type S tc r, type_applies S rt tc with
+      | SInline tc false sub =>
+          (* a missing type condition means the enclosing type (generator) / always applies (executor) *)
+          match inline_root_type S (match tc with Some tc => tc | None => r end) r,
+                (match tc with None => true | Some t => type_applies S rt t end) with
           | Some r', true => match rec r' sub with
                              | Some (l', ms') => Some (l ++ l', ms ++ ms') | None => None end
           | None, false => Some (l, ms)
@@ -442,17 +449,17 @@ Section Agree.
           * destruct (type_applies S rt (fr_on fd)); [| kill Hf].
             destruct (IHs _ _ _ _ _ _ Hf Hr) as [d [e [H1 H2]]]. exists d, (n :: e). subst.
             rewrite <- !app_assoc. auto.
-        + simpl in Hf, Hr. destruct tc as [tc|]; [| kill Hf].
+        + simpl in Hf, Hr.
           destruct c; [kill Hf|].
-          destruct (inline_root_type S tc r) as [r'|].
-          * destruct (type_applies S rt tc); [| kill Hf].
+          destruct (inline_root_type S (match tc with Some tc0 => tc0 | None => r end) r) as [r'|].
+          * destruct ((match tc with None => true | Some t => type_applies S rt t end)); [| kill Hf].
             destruct (flattenM g S frs rt r' sub) as [[l' ms']|] eqn:El; [| kill Hf].
             destruct (resolve f S frs sub r') as [q|m] eqn:Eq; simpl in Hr;
               [| rewrite resolve_fold_err in Hr; discriminate].
             rewrite (IH _ _ _ _ _ El Eq) in Hr. simpl in Hr.
             destruct (IHs _ _ _ _ _ _ Hf Hr) as [d [e [H1 H2]]]. exists (l' ++ d), (ms' ++ e). subst.
             rewrite <- !app_assoc. auto.
-          * destruct (type_applies S rt tc); [kill Hf|].
+          * destruct ((match tc with None => true | Some t => type_applies S rt t end)); [kill Hf|].
             apply (IHs _ _ _ _ _ _ Hf Hr). }
     destruct (G _ _ _ _ _ _ _ Hf Hr) as [d [e [H1 H2]]]. simpl in *. subst. reflexivity.
   Qed.
@@ -495,17 +502,17 @@ Section Agree.
               [| rewrite collect_fold_none in Hc; discriminate].
             destruct (IHs _ _ _ _ _ Hf Hc) as [d [e [H1 H2]]]. exists d, (n :: e). subst.
             rewrite <- !app_assoc. split; [reflexivity|]. intro He. discriminate He.
-        + simpl in Hf, Hc. destruct tc as [tc|]; [| kill Hf].
+        + simpl in Hf, Hc.
           destruct c; [kill Hf|]. rewrite orb_false_r in Hc.
-          destruct (inline_root_type S tc r) as [r'|].
-          * destruct (type_applies S rt tc); [| kill Hf].
+          destruct (inline_root_type S (match tc with Some tc0 => tc0 | None => r end) r) as [r'|].
+          * destruct ((match tc with None => true | Some t => type_applies S rt t end)); [| kill Hf].
             destruct (flattenM g S frs rt r' sub) as [[l' ms']|] eqn:El; [| kill Hf].
             destruct (collect f S frs rt under sub) as [q|] eqn:Eq;
               [| rewrite collect_fold_none in Hc; discriminate].
             destruct (IHs _ _ _ _ _ Hf Hc) as [d [e [H1 H2]]]. exists (l' ++ d), (ms' ++ e). subst.
             rewrite <- !app_assoc. split; [reflexivity|]. intro He. apply app_eq_nil in He as [He1 He2].
             rewrite (H2 He2), (IH _ _ _ _ _ _ _ El Eq He1), map_app, <- !app_assoc. reflexivity.
-          * destruct (type_applies S rt tc); [kill Hf|].
+          * destruct ((match tc with None => true | Some t => type_applies S rt t end)); [kill Hf|].
             apply (IHs _ _ _ _ _ Hf Hc). }
     destruct (G _ _ _ _ _ _ Hf Hc) as [d [e [H1 H2]]]. simpl in H1. inversion H1; subst.
     rewrite (H2 eq_refl). reflexivity.
@@ -571,10 +578,10 @@ Section Agree.
             intros m Hm. destruct (I2 m Hm) as [H | H]; [| right; exact H].
             apply in_app_or in H. destruct H as [H | [H | []]]; [left; exact H|]. subst m. right.
             exists fd, f, q. auto.
-        + simpl in Hf, Hc. destruct tc as [tc|]; [| kill Hf].
+        + simpl in Hf, Hc.
           destruct c; [kill Hf|].
-          destruct (inline_root_type S tc r) as [r'|].
-          * destruct (type_applies S rt tc); [| kill Hf].
+          destruct (inline_root_type S (match tc with Some tc0 => tc0 | None => r end) r) as [r'|].
+          * destruct ((match tc with None => true | Some t => type_applies S rt t end)); [| kill Hf].
             destruct (flattenM g S frs rt r' sub) as [[l' ms']|] eqn:El; [| kill Hf].
             destruct (collect f S frs rt false sub) as [q|] eqn:Eq;
               [| rewrite collect_fold_none in Hc; discriminate].
@@ -587,7 +594,7 @@ Section Agree.
             -- intros m Hm. destruct (I2 m Hm) as [H | H]; [| right; exact H].
                apply in_app_or in H. destruct H as [H | H]; [left; exact H | right].
                eapply PMmono; [exact Hq | apply J2, H].
-          * destruct (type_applies S rt tc); [kill Hf|].
+          * destruct ((match tc with None => true | Some t => type_applies S rt t end)); [kill Hf|].
             apply (IHs _ _ _ _ _ _ Hf Hc). }
     destruct (G _ _ _ _ _ _ _ Hf Hc) as [_ [G1 G2]]. split.
     - intros x Hx. destruct (G1 x Hx) as [[] | H]. exact H.
@@ -643,9 +650,9 @@ Section Agree.
             split; [rewrite <- !app_assoc; reflexivity|]. split.
             -- intros; simpl. rewrite Elf, Elr, Elo, Eu. simpl. rewrite H2, <- !app_assoc. reflexivity.
             -- intro He. discriminate He.
-        + simpl in Hf. destruct tc as [tc|]; [| kill Hf]. destruct c; [kill Hf|].
-          destruct (inline_root_type S tc r) as [r'|] eqn:Ei.
-          * destruct (type_applies S rt tc) eqn:Et; [| kill Hf].
+        + simpl in Hf. destruct c; [kill Hf|].
+          destruct (inline_root_type S (match tc with Some tc0 => tc0 | None => r end) r) as [r'|] eqn:Ei.
+          * destruct ((match tc with None => true | Some t => type_applies S rt t end)) eqn:Et; [| kill Hf].
             destruct (flattenM g S frs rt r' sub) as [[l' ms']|] eqn:El; [| kill Hf].
             destruct (IH _ _ _ _ El f Hge') as [R1 R2].
             destruct (IHs _ _ _ Hf) as [d [e [H1 [H2 H3]]]]. exists (l' ++ d), (ms' ++ e). subst.
@@ -654,7 +661,7 @@ Section Agree.
             -- intros; simpl. rewrite Ei, R1. simpl. rewrite H2, <- !app_assoc. reflexivity.
             -- intros He under l0. apply app_eq_nil in He as [He1 He2]. simpl.
                rewrite Et, orb_false_r, (R2 He1), (H3 He2), map_app, <- app_assoc. reflexivity.
-          * destruct (type_applies S rt tc) eqn:Et; [kill Hf|].
+          * destruct ((match tc with None => true | Some t => type_applies S rt t end)) eqn:Et; [kill Hf|].
             destruct (IHs _ _ _ Hf) as [d [e [H1 [H2 H3]]]]. exists d, e. split; [exact H1|].
             split.
             -- intros; simpl. rewrite Ei. apply H2.
